@@ -181,6 +181,13 @@ def gen_cases(ctx, n):
             shape = ctx.rng.randrange(3)
             obj = ([{'id': j, 'tags': tags()} for j in range(m)] if shape == 0 else
                    {'k%d' % j: tags() for j in range(m)} if shape == 1 else [tags() for j in range(m)])
+        if i % 8 == 5:
+            # dictionaries keyed by equal numbers of different types (and by numbers that print differently), side by side in one object and
+            # from one search to the next: each key is rendered as itself
+            ks = ctx.rng.sample([True, 1.0, 1, False, 0.0, 0, 2.0, 2], 4)
+            obj = {'by_%d' % j: {k: ctx.rng.choice(['True', '1.0', 'hit', 1, 2.5, 'x2.50y'])} for j, k in enumerate(ks)}
+            if ctx.rng.random() < 0.5:
+                obj = [obj, {ks[0]: {'deep': 'hit'}}]
         locs = locations(obj)
         leaves = [v for (_, _, v, _, _) in locs if not isinstance(v, (dict, list, tuple, set, frozenset))]
         keys_ = [k for (_, ks, _, via, _) in locs if via for k in ks[-1:]]
